@@ -82,6 +82,15 @@ ProgCtlWhy(prog, x) ==
             /\ x.ctl[j].r = RateName(CtlRate(prog.ctl[i].r))
     THEN "desc-program-control" ELSE "ok"
 
+\* ---- the control array has exactly one slot per channel of every parameter, and every control-rate slot of a program
+\*      with lagged parameters sits in a LagControl unit of at most 16 channels with one lag input per channel
+SlotsWhy(prog, d) ==
+    LET total == FoldLeft(LAMBDA a, c : a + CtlW(c), 0, prog.ctl) IN
+    IF Len(d.ctl) # total THEN "control-slot-count"
+    ELSE IF Lagged(prog) /\ \E u \in 1..Len(d.units) : d.units[u].c = "LagControl" /\
+                (Len(d.units[u].outs) > 16 \/ Len(d.units[u].ins) # Len(d.units[u].outs)) THEN "lag-control-shape"
+    ELSE "ok"
+
 \* ---- ordering
 OrderWhy(d, created, wfl) ==
     LET NU == Len(d.units)
@@ -104,6 +113,7 @@ Why(t) ==
                   ow == OrderWhy(d, t.created, t.wf) IN
               IF ow # "ok" THEN ow
               ELSE IF t.wf_lost # <<>> THEN "width-first-unit-lost"
+              ELSE IF SlotsWhy(t.prog, d) # "ok" THEN SlotsWhy(t.prog, d)
               ELSE IF Len(t.desc) # 3 THEN "desc-missing"
               ELSE IF DescWhy(d, t.desc[1]) # "ok" THEN "new_from:" \o DescWhy(d, t.desc[1])
               ELSE IF DescWhy(d, t.desc[2]) # "ok" THEN "read_stream:" \o DescWhy(d, t.desc[2])
